@@ -23,8 +23,9 @@ class _Return(Exception):
 
 
 class VecEval:
-    def __init__(self, P, F, env=None, choose=None, opaque=None):
+    def __init__(self, P, F, env=None, choose=None, opaque=None, inline=None):
         self.P, self.F = P, F
+        self.inline = inline                 # inline(qualified name) -> True: evaluate the callee's body with the argument values
         self.opaque = opaque                 # opaque(qualified name) -> True: keep the call as an uninterpreted function of its arguments
         self.env = dict(env or {})          # decl key -> value
         self.choose = choose or (lambda v, n: None)
@@ -156,6 +157,10 @@ class VecEval:
                 if isinstance(v, tuple):
                     q = sum(x ** 2 for x in v)
                     return sp.sqrt(q) if nm == "norm" else q
+            if nm in ("get_array",) and base is not None:
+                v = r(base)
+                if isinstance(v, tuple):
+                    return v
             if nm in ("get_coordinate_system",) and base is not None:
                 return sp.Symbol("coordinate_system_of_" + norm.render(P, base, nocast=True))
             d_ = P.d(n.get("callee")) if n.get("callee") else {}
@@ -187,6 +192,11 @@ class VecEval:
                 return args[0] ** args[1]
             if base in ("min", "max") and len(args) == 2:
                 return (sp.Min if base == "min" else sp.Max)(*args)
+            if self.inline is not None and self.inline(qn) and n.get("callee") in P.funcs and P.funcs[n["callee"]].body is not None and depth < 60:
+                G = P.funcs[n["callee"]]
+                if len(G.params) == len(args):
+                    sub = VecEval(P, G, env=dict(zip(G.params, args)), choose=self.choose, opaque=self.opaque, inline=self.inline)
+                    return sub.run_function(astq.stmts_of(G.body))
             if self.opaque is not None and self.opaque(qn):
                 flat = []
                 for a in args:
